@@ -1,7 +1,10 @@
+mod c05;
+mod c05_known;
 mod c18;
 mod c19;
 mod common;
 mod driver;
+mod gen_prog;
 mod prng;
 mod sched;
 mod seam;
@@ -84,6 +87,14 @@ fn dispatch<P: Prop>(cmd: &str, args: &[String]) -> i32 {
             let g = |i: usize| args.get(i).cloned().unwrap_or_default();
             driver::replay::<P>(&g(2), &g(3), args.iter().any(|a| a == "--expect"))
         }
+        "minimise" => {
+            let g = |i: usize| args.get(i).cloned().unwrap_or_default();
+            driver::minimise_file::<P>(
+                &g(2),
+                &g(3),
+                flag(args, "--budget").and_then(|s| s.parse().ok()).unwrap_or(120),
+            )
+        }
         "determinism" => {
             let tier = flag(args, "--tier").unwrap_or_else(|| "quick".to_string());
             driver::determinism::<P>(
@@ -116,7 +127,7 @@ fn main() {
     std::panic::set_hook(Box::new(|_| {}));
     let cmd = args[0].clone();
     // `dsim replay <file>`: take the property from the file
-    if cmd == "replay" && args.len() >= 2 && std::path::Path::new(&args[1]).is_file() {
+    if (cmd == "replay" || cmd == "minimise") && args.len() >= 2 && std::path::Path::new(&args[1]).is_file() {
         let file = std::fs::canonicalize(&args[1])
             .unwrap()
             .to_string_lossy()
@@ -134,15 +145,25 @@ fn main() {
             .to_string_lossy()
             .into_owned();
         let expect = args.iter().any(|a| a == "--expect");
-        args = vec!["replay".to_string(), id, vd, file];
+        let budget = flag(&args, "--budget");
+        args = vec![cmd.clone(), id, vd, file];
+        if let Some(b) = budget {
+            args.push("--budget".to_string());
+            args.push(b);
+        }
         if expect {
             args.push("--expect".to_string());
         }
+    }
+    if cmd == "warmtest" {
+        c05::warmtest();
+        return;
     }
     let id = args.get(1).cloned().unwrap_or_default();
     let code = match id.as_str() {
         "C19" => dispatch::<c19::C19>(&cmd, &args),
         "C18" => dispatch::<c18::C18>(&cmd, &args),
+        "C05" => dispatch::<c05::C05>(&cmd, &args),
         _ => usage(),
     };
     std::process::exit(code);
